@@ -229,11 +229,13 @@ class Engine:
                                            envs=list(envs), hyp=list(hyp), concl=concl, kind=kind,
                                            meta=dict(meta, path=list(st.path))))
 
-    def feasible(self, st: State, extra=None) -> bool:
+    def feasible(self, st: State, extra=None, timeout_ms=300) -> bool:
+        """unknown counts as feasible: pruning is only ever an optimisation.  Callers whose ANSWER depends on `infeasible`
+        (is_covered) pass a generous timeout so that a busy machine does not flip a verdict."""
         if self.scouting:
             return True
         s = z3.SolverFor('QF_AUFLIA')
-        s.set('timeout', 300)
+        s.set('timeout', timeout_ms)
         s.add(*st.pc)
         if extra is not None:
             s.add(extra)
